@@ -66,8 +66,9 @@ def _files(ctx, F, topo, weights=None):
 class Spy:
     """records every (l, theta, phi) the code passes to sph_harm_l; symbolic run: answers with opaque symbols"""
 
-    def __init__(self, ctx, boo, opaque=True):
+    def __init__(self, ctx, boo, opaque=True, semantic=False):
         self.ctx, self.boo, self.calls = ctx, boo, []
+        self.semantic, self.seen = semantic, []
         self.real = boo.__dict__["sph_harm_l"]
         self.opaque = opaque and ctx.mode == "sym"
         self.cache = {}
@@ -81,9 +82,20 @@ class Spy:
             cp, sp = O.cos_sin(phi)
             key = (int(l), ct.key(), st.key(), cp.key(), sp.key())
             vals = self.cache.get(key)
+            if vals is None and self.semantic:
+                # Y is a function of the direction: reuse the symbols of an earlier call whose four components are provably
+                # equal under the path condition (e.g. the same bond after a lattice shift or a dilation)
+                for (l0, c0, s0, c1, s1, v0) in self.seen:
+                    if l0 != int(l):
+                        continue
+                    same = O.And(O.eq(ct, c0), O.eq(st, s0), O.eq(cp, c1), O.eq(sp, s1))
+                    if same is True or (not isinstance(same, bool) and self.ctx.eng.implied(same) is True):
+                        vals = v0
+                        break
             if vals is None:
                 vals = [O.cplx(self.ctx.real(f"Y{n}_{m}.re"), self.ctx.real(f"Y{n}_{m}.im")) for m in range(-int(l), int(l) + 1)]
-                self.cache[key] = vals
+                self.seen.append((int(l), ct, st, cp, sp, vals))
+            self.cache[key] = vals
             self.calls.append((l, theta, phi, vals))
             return sarr(vals)
         vals = self.real(l, theta, phi)
